@@ -238,7 +238,7 @@ def _dup_chunk(params, lo, hi):
 A5 = (None, -1, 0, 1, 2)
 STR = ["a", "b", "c", "d", "e"]
 MIXED = [None, 0, "", (1,), 2.5]  # falsy / None / tuple / float labels
-BIG = [1000, "node-b", (1, (2, 3)), 2.5, -1000]  # labels of which equal copies are distinct objects (see vf.combi.fresh)
+BIG = [-1, -2, (1, (2, 3)), 2.5, 1000]  # labels of which equal copies are distinct objects (see vf.combi.fresh)
 
 
 def _multi3_chunk(params, lo, hi):
